@@ -106,3 +106,22 @@ Definition permits (c : config) (pats : list pattern) (i : intent) : bool :=
           (in_headers i) &&
   (negb (in_pna i) || c_pna c) &&
   negb (c_pna_nocors c).
+
+(* ---- the quantifier domain of C02 ---- *)
+Require Import Spec.AcrhList.
+
+(* what a Fetch-compliant browser can put in an intent: the method is a token; the CORS-unsafe
+   request-header names are tokens, byte-lowercase, sorted and unique *)
+Definition wf_intent (i : intent) : Prop :=
+  is_token (in_method i) = true /\
+  strictly_increasing (in_headers i) = true /\
+  Forall (fun n => is_token n = true /\ lower n = n) (in_headers i).
+
+(* the renderings of the header list H as ACRH field lines that the documentation tolerates:
+   read as comma-separated lists with at most one OWS byte per side of an element, the lines
+   yield exactly H once empty elements (at most 16 of them) are dropped *)
+Definition perturb (H : list bytes) (lines : list bytes) : Prop :=
+  exists names,
+    all_names (flat_map (split_byte 44) lines) = Some names /\
+    filter (fun x => negb (is_empty x)) names = H /\
+    (length (filter is_empty names) <= 16)%nat.
